@@ -4,6 +4,7 @@ use crate::protocol::per::err::ErrorKind;
 use crate::protocol::per::unaligned::buffer::BitBuffer;
 use crate::protocol::per::unaligned::BitWrite;
 use crate::protocol::per::unaligned::BYTE_LEN;
+use crate::protocol::per::unaligned::{LENGTH_16K, LENGTH_64K};
 use crate::protocol::per::PackedRead;
 use crate::protocol::per::PackedWrite;
 use asn1rs_model::asn::Charset;
@@ -347,6 +348,51 @@ impl UperWriter {
         }
     }
 
+    /// Writes the extension bit (if any) and then the elements in the fragments demanded by
+    /// ITU-T X.691 | ISO/IEC 8825-2:2015, 11.9.3.8: each length determinant announces the
+    /// number of elements up to the next one, a multiple of 16K is always followed by a
+    /// further (possibly zero) length determinant.
+    #[inline]
+    fn write_fragmented<I: Iterator, F: FnMut(&mut Self, I::Item) -> Result<(), Error>>(
+        &mut self,
+        extensible: bool,
+        min: Option<u64>,
+        max: Option<u64>,
+        upper_limit: u64,
+        len: u64,
+        mut items: I,
+        mut write_item: F,
+    ) -> Result<(), Error> {
+        let unwrapped_min = min.unwrap_or(0);
+        let unwrapped_max = max.unwrap_or(upper_limit);
+        let out_of_range = len < unwrapped_min || len > unwrapped_max;
+
+        if extensible {
+            self.bits.write_bit(out_of_range)?;
+        } else if out_of_range {
+            return Err(ErrorKind::SizeNotInRange(len, unwrapped_min, unwrapped_max).into());
+        }
+
+        let mut remaining = len;
+        let mut fragment = if out_of_range {
+            self.bits.write_length_determinant(None, None, remaining)?
+        } else {
+            self.bits.write_length_determinant(min, max, remaining)?
+        };
+
+        loop {
+            let count = fragment.unwrap_or(remaining).min(remaining);
+            for item in items.by_ref().take(count as usize) {
+                write_item(self, item)?;
+            }
+            remaining -= count;
+            if fragment.is_none() {
+                break Ok(());
+            }
+            fragment = self.bits.write_length_determinant(None, None, remaining)?;
+        }
+    }
+
     #[inline]
     pub fn write_extensible_bit_and_length_or_err(
         &mut self,
@@ -436,20 +482,15 @@ impl Writer for UperWriter {
     ) -> Result<(), Self::Error> {
         self.write_bit_field_entry(false, true)?;
         self.scope_stashed(|w| {
-            w.write_extensible_bit_and_length_or_err(
+            w.write_fragmented(
                 C::EXTENSIBLE,
                 C::MIN,
                 C::MAX,
                 i64::MAX as u64,
                 slice.len() as u64,
-            )?;
-
-            w.scope_stashed(|w| {
-                for value in slice {
-                    T::write_value(w, value)?;
-                }
-                Ok(())
-            })
+                slice.iter(),
+                |w, value| w.scope_stashed(|w| T::write_value(w, value)),
+            )
         })
     }
 
@@ -612,20 +653,16 @@ impl Writer for UperWriter {
         self.with_buffer(|w| {
             Error::ensure_string_valid(Charset::Ia5, value)?;
 
-            w.write_extensible_bit_and_length_or_err(
+            w.write_fragmented(
                 C::EXTENSIBLE,
                 C::MIN,
                 C::MAX,
                 u64::MAX,
                 value.chars().count() as u64,
-            )?;
-
-            for char in value.chars().map(|c| c as u8) {
+                value.chars(),
                 // 7 bits
-                w.bits.write_bits_with_offset(&[char], 1)?;
-            }
-
-            Ok(())
+                |w, char| w.bits.write_bits_with_offset(&[char as u8], 1),
+            )
         })
     }
 
@@ -638,23 +675,21 @@ impl Writer for UperWriter {
         self.with_buffer(|w| {
             Error::ensure_string_valid(Charset::Numeric, value)?;
 
-            w.write_extensible_bit_and_length_or_err(
+            w.write_fragmented(
                 C::EXTENSIBLE,
                 C::MIN,
                 C::MAX,
                 u64::MAX,
                 value.chars().count() as u64,
-            )?;
-
-            for char in value.chars().map(|c| c as u8) {
-                let char = match char - 32 {
-                    0 => 0,
-                    c => c - 15,
-                };
-                w.bits.write_bits_with_offset(&[char], 4)?;
-            }
-
-            Ok(())
+                value.chars(),
+                |w, char| {
+                    let char = match char as u8 - 32 {
+                        0 => 0,
+                        c => c - 15,
+                    };
+                    w.bits.write_bits_with_offset(&[char], 4)
+                },
+            )
         })
     }
 
@@ -667,19 +702,15 @@ impl Writer for UperWriter {
         self.with_buffer(|w| {
             Error::ensure_string_valid(Charset::Printable, value)?;
 
-            w.write_extensible_bit_and_length_or_err(
+            w.write_fragmented(
                 C::EXTENSIBLE,
                 C::MIN,
                 C::MAX,
                 u64::MAX,
                 value.chars().count() as u64,
-            )?;
-
-            for char in value.chars() {
-                w.bits.write_bits_with_offset(&[char as u8], 1)?;
-            }
-
-            Ok(())
+                value.chars(),
+                |w, char| w.bits.write_bits_with_offset(&[char as u8], 1),
+            )
         })
     }
 
@@ -692,19 +723,15 @@ impl Writer for UperWriter {
         self.with_buffer(|w| {
             Error::ensure_string_valid(Charset::Visible, value)?;
 
-            w.write_extensible_bit_and_length_or_err(
+            w.write_fragmented(
                 C::EXTENSIBLE,
                 C::MIN,
                 C::MAX,
                 u64::MAX,
                 value.chars().count() as u64,
-            )?;
-
-            for char in value.chars() {
-                w.bits.write_bits_with_offset(&[char as u8], 1)?;
-            }
-
-            Ok(())
+                value.chars(),
+                |w, char| w.bits.write_bits_with_offset(&[char as u8], 1),
+            )
         })
     }
 
@@ -794,6 +821,41 @@ impl<B: ScopedBitRead> UperReader<B> {
                 result.clone(),
             ));
         result
+    }
+
+    /// Reads the extension bit (if any) and the first length determinant of a list or of a
+    /// string with known multiplier. The flag tells whether the unconstrained form was used,
+    /// in which further fragments follow a length of 16K or more, see
+    /// ITU-T X.691 | ISO/IEC 8825-2:2015, 11.9.3.8
+    #[inline]
+    fn read_first_length(
+        &mut self,
+        extensible: bool,
+        min: Option<u64>,
+        max: Option<u64>,
+    ) -> Result<(u64, bool), Error> {
+        if extensible && self.bits.read_bit()? {
+            Ok((self.read_length_determinant(None, None)?, true))
+        } else {
+            Ok((
+                self.read_length_determinant(min, max)?,
+                max.map_or(true, |max| max >= LENGTH_64K),
+            ))
+        }
+    }
+
+    /// The length of the next fragment, if the previous fragment announces one
+    #[inline]
+    fn read_next_fragment_length(
+        &mut self,
+        fragmented: bool,
+        previous: u64,
+    ) -> Result<Option<u64>, Error> {
+        if fragmented && previous >= LENGTH_16K {
+            self.read_length_determinant(None, None).map(Some)
+        } else {
+            Ok(None)
+        }
     }
 
     #[inline]
@@ -1062,27 +1124,22 @@ impl<B: ScopedBitRead> Reader for UperReader<B> {
         let _ = self.read_bit_field_entry(false)?;
         #[allow(clippy::let_and_return)]
         self.with_buffer(|r| {
-            let len = if C::EXTENSIBLE {
-                let extensible = r.bits.read_bit()?;
-                if extensible {
-                    r.read_length_determinant(None, None)?
-                } else {
-                    r.read_length_determinant(C::MIN, C::MAX)?
-                }
-            } else {
-                r.read_length_determinant(C::MIN, C::MAX)?
-            };
+            let (mut len, fragmented) = r.read_first_length(C::EXTENSIBLE, C::MIN, C::MAX)?;
+            let mut vec = Vec::with_capacity(len as usize);
 
-            if len > 0 {
-                r.scope_stashed(|r| {
-                    let mut vec = Vec::with_capacity(len as usize);
-                    for _ in 0..len {
-                        vec.push(T::read_value(r)?);
-                    }
-                    Ok(vec)
-                })
-            } else {
-                Ok(Vec::new())
+            loop {
+                if len > 0 {
+                    r.scope_stashed(|r| {
+                        for _ in 0..len {
+                            vec.push(T::read_value(r)?);
+                        }
+                        Ok(())
+                    })?;
+                }
+                match r.read_next_fragment_length(fragmented, len)? {
+                    Some(next) => len = next,
+                    None => break Ok(vec),
+                }
             }
         })
     }
@@ -1272,15 +1329,19 @@ impl<B: ScopedBitRead> Reader for UperReader<B> {
         let _ = self.read_bit_field_entry(false)?;
         #[allow(clippy::let_and_return)]
         let result = self.with_buffer(|r| {
-            let len = if C::EXTENSIBLE && r.bits.read_bit()? {
-                r.read_length_determinant(None, None)?
-            } else {
-                r.read_length_determinant(C::MIN, C::MAX)?
-            };
+            let (mut len, fragmented) = r.read_first_length(C::EXTENSIBLE, C::MIN, C::MAX)?;
+            let mut buffer = Vec::new();
 
-            let mut buffer = vec![0u8; len as usize];
-            for i in 0..len as usize {
-                r.bits.read_bits_with_offset(&mut buffer[i..i + 1], 1)?;
+            loop {
+                let start = buffer.len();
+                buffer.resize(start + len as usize, 0u8);
+                for i in start..buffer.len() {
+                    r.bits.read_bits_with_offset(&mut buffer[i..i + 1], 1)?;
+                }
+                match r.read_next_fragment_length(fragmented, len)? {
+                    Some(next) => len = next,
+                    None => break,
+                }
             }
 
             String::from_utf8(buffer).map_err(|e| ErrorKind::FromUtf8Error(e).into())
@@ -1302,18 +1363,22 @@ impl<B: ScopedBitRead> Reader for UperReader<B> {
         let _ = self.read_bit_field_entry(false)?;
         #[allow(clippy::let_and_return)]
         let result = self.with_buffer(|r| {
-            let len = if C::EXTENSIBLE && r.bits.read_bit()? {
-                r.read_length_determinant(None, None)?
-            } else {
-                r.read_length_determinant(C::MIN, C::MAX)?
-            };
+            let (mut len, fragmented) = r.read_first_length(C::EXTENSIBLE, C::MIN, C::MAX)?;
+            let mut buffer = Vec::new();
 
-            let mut buffer = vec![0u8; len as usize];
-            for i in 0..len as usize {
-                r.bits.read_bits_with_offset(&mut buffer[i..i + 1], 4)?;
-                match buffer[i] {
-                    0_u8 => buffer[i] = 32_u8,
-                    c => buffer[i] = 32_u8 + 15 + c,
+            loop {
+                let start = buffer.len();
+                buffer.resize(start + len as usize, 0u8);
+                for i in start..buffer.len() {
+                    r.bits.read_bits_with_offset(&mut buffer[i..i + 1], 4)?;
+                    match buffer[i] {
+                        0_u8 => buffer[i] = 32_u8,
+                        c => buffer[i] = 32_u8 + 15 + c,
+                    }
+                }
+                match r.read_next_fragment_length(fragmented, len)? {
+                    Some(next) => len = next,
+                    None => break,
                 }
             }
 
@@ -1338,16 +1403,20 @@ impl<B: ScopedBitRead> Reader for UperReader<B> {
         let _ = self.read_bit_field_entry(false)?;
         #[allow(clippy::let_and_return)]
         let result = self.with_buffer(|r| {
-            let len = if C::EXTENSIBLE && r.bits.read_bit()? {
-                r.read_length_determinant(None, None)?
-            } else {
-                r.read_length_determinant(C::MIN, C::MAX)?
-            };
+            let (mut len, fragmented) = r.read_first_length(C::EXTENSIBLE, C::MIN, C::MAX)?;
+            let mut buffer = Vec::new();
 
-            let mut buffer = vec![0u8; len as usize];
-            buffer
-                .chunks_exact_mut(1)
-                .try_for_each(|chunk| r.bits.read_bits_with_offset(chunk, 1))?;
+            loop {
+                let start = buffer.len();
+                buffer.resize(start + len as usize, 0u8);
+                buffer[start..]
+                    .chunks_exact_mut(1)
+                    .try_for_each(|chunk| r.bits.read_bits_with_offset(chunk, 1))?;
+                match r.read_next_fragment_length(fragmented, len)? {
+                    Some(next) => len = next,
+                    None => break,
+                }
+            }
 
             String::from_utf8(buffer).map_err(|e| ErrorKind::FromUtf8Error(e).into())
         });
@@ -1368,16 +1437,20 @@ impl<B: ScopedBitRead> Reader for UperReader<B> {
         let _ = self.read_bit_field_entry(false)?;
         #[allow(clippy::let_and_return)]
         let result = self.with_buffer(|r| {
-            let len = if C::EXTENSIBLE && r.bits.read_bit()? {
-                r.read_length_determinant(None, None)?
-            } else {
-                r.read_length_determinant(C::MIN, C::MAX)?
-            };
+            let (mut len, fragmented) = r.read_first_length(C::EXTENSIBLE, C::MIN, C::MAX)?;
+            let mut buffer = Vec::new();
 
-            let mut buffer = vec![0u8; len as usize];
-            buffer
-                .chunks_exact_mut(1)
-                .try_for_each(|chunk| r.bits.read_bits_with_offset(chunk, 1))?;
+            loop {
+                let start = buffer.len();
+                buffer.resize(start + len as usize, 0u8);
+                buffer[start..]
+                    .chunks_exact_mut(1)
+                    .try_for_each(|chunk| r.bits.read_bits_with_offset(chunk, 1))?;
+                match r.read_next_fragment_length(fragmented, len)? {
+                    Some(next) => len = next,
+                    None => break,
+                }
+            }
 
             String::from_utf8(buffer).map_err(|e| ErrorKind::FromUtf8Error(e).into())
         });
